@@ -254,3 +254,9 @@ Proof.
   destruct (write_raw_ok data 63 tag ltac:(lia) H63 NE Ht) as (ts & t' & W & D & _ & _).
   exists ts, t'. split; [exact W|]. split; [exact D|]. exact (wr_loop_sizes 63 _ _ _ _ _ _ W).
 Qed.
+
+(* for EVERY max_transfer_size (the live value is a parameter of the correspondence): no transfer
+   carries more than max_transfer_size payload bytes (12 header + mts + at most 3 alignment bytes) *)
+Lemma write_raw_sizes data mts tag ts t' :
+  write_raw data mts tag = Some (ts, t') -> Forall (fun tr => (length tr <= 12 + mts + 3)%nat) ts.
+Proof. unfold write_raw. apply wr_loop_sizes. Qed.
